@@ -1,2 +1,14 @@
 """Named, reviewed predicates for known findings.  Each takes (site, witness) and decides whether the violation is an
 instance of the *mechanism* the finding describes.  Keep them as tight as the mechanism allows."""
+
+
+def _unfl(d):
+    return float.fromhex(d["hex"]) if isinstance(d, dict) and "hex" in d else d
+
+
+def c14_array_form_over_int64(site, w):
+    """array form of diff_ulp in float64 when some distance >= 2**63: result is the float64 rounding of the exact distances"""
+    if site != "array-form" or w.get("dtype") != "float64":
+        return False
+    exp, got = w["expected"], w["got"]
+    return max(exp) >= 2**63 and all(int(float(e)) == int(g) for e, g in zip(exp, got))
